@@ -53,9 +53,11 @@ prop("C02",
           "with elements a,b,c up to the size cap, dedup by the label sequence (holes included); every op from every reachable sequence, every query probed in "
           "every new state (count, get, index, find, contains, to_array, iterator, dup, show); the same model decides all three classes, so they are pairwise interchangeable; "
           "non-trivial = distinct reachable sequences",
-     bounds={"quick": "size cap 5, fixpoint", "thorough": "size cap 8, fixpoint"},
+     bounds={"quick": "size cap 5, fixpoint, one-step look-ahead from every transition", "thorough": "size cap 8, fixpoint; one-step look-ahead from every transition at size cap 6"},
      runs=[dict(name="h_list", sources=["harness/h_list.c"], profile="asan",
-                args={"quick": ["--S=5"], "thorough": ["--S=8"]})],
+                args={"quick": ["--S=5"], "thorough": ["--S=8", "--lookahead=0"]}),
+           dict(name="h_list_la", sources=["harness/h_list.c"], profile="asan", tiers=["thorough"],
+                args={"quick": ["--S=5"], "thorough": ["--S=6"]})],
      deadline={"quick": 200, "thorough": 3000})
 
 
